@@ -211,9 +211,37 @@ def tier_runs(prop_id: str, tier: str) -> int:
     return prop.RUNS[tier]
 
 
+def sweep_stale_scratch() -> None:
+    """Remove worlds left behind by batch processes that no longer exist (killed by a wall limit)."""
+    import re
+    import shutil
+
+    from vsim.world import scratch_base
+    base = scratch_base()
+    try:
+        names = os.listdir(base)
+    except OSError:
+        return
+    for n in names:
+        m = re.match(r"vsim-(?:zygote-|out-)?(\d+)[-.]", n)
+        if not m:
+            continue
+        if os.path.exists(f"/proc/{m.group(1)}"):
+            continue
+        p = base / n
+        if p.is_dir():
+            shutil.rmtree(p, ignore_errors=True)
+        else:
+            try:
+                p.unlink()
+            except OSError:
+                pass
+
+
 def launch(prop_id: str, tier: str, seed: int, runs: int | None = None, hashseeds: list[int] | None = None,
            nbatch: int | None = None, outdir: Path | None = None, wall_limit: float | None = None):
     """Start nbatch batch interpreters, wait, return (outputs, harness_errors)."""
+    sweep_stale_scratch()
     nbatch = nbatch or NBATCH
     runs = runs or tier_runs(prop_id, tier)
     nbatch = max(1, min(nbatch, runs))
@@ -227,7 +255,7 @@ def launch(prop_id: str, tier: str, seed: int, runs: int | None = None, hashseed
         cmd = [sys.executable, str(VERIF / "vsim" / "main.py"), "batch", prop_id, "--seed", str(seed),
                "--tier", tier, "--indices", f"{b}:{runs}:{nbatch}", "--out", str(out)]
         lf = open(log, "w")
-        procs.append((b, subprocess.Popen(cmd, env=batch_env(hs), stdout=lf, stderr=subprocess.STDOUT, cwd=str(VERIF)), out, log, lf, hs))
+        procs.append((b, subprocess.Popen(cmd, env=batch_env(hs), stdout=lf, stderr=subprocess.STDOUT, cwd=str(VERIF), start_new_session=True), out, log, lf, hs))
     prop = importlib.import_module(PROPS[prop_id])
     limit = wall_limit or prop.WALL[tier]
     deadline = time.time() + limit
@@ -236,9 +264,12 @@ def launch(prop_id: str, tier: str, seed: int, runs: int | None = None, hashseed
         try:
             rc = p.wait(max(1, deadline - time.time()))
         except subprocess.TimeoutExpired:
-            p.kill()
-            p.wait()
             rc = "wall-limit"
+        try:   # the batch's zygote, subjects, workers and mirror live in its session: take them all down
+            os.killpg(p.pid, 9)
+        except (ProcessLookupError, PermissionError):
+            pass
+        p.wait()
         lf.close()
         if rc != 0 or not out.exists():
             tail = ""
